@@ -106,7 +106,7 @@ func c12DoWalk(v *vm.VM, extra ...*vm.Stack) c12Walk {
 		}
 	}
 	doStack(v.Estack())
-	for _, st := range extra { // stacks no context uses any more but whose items the counter still holds (finding F57)
+	for _, st := range extra { // stacks no context uses any more but whose items the counter still holds (finding F58)
 		doStack(st)
 	}
 	for _, c := range v.Istack() {
